@@ -1063,9 +1063,14 @@ func (self *Node) vdrKill() (*VDRKillReport, bool) {
 	allDone := true
 	killReports := make([]*VDRKillReport, 0, len(self.forks))
 	for _, fork := range self.forks {
-		if report, done := fork.partialVdrKill(); !done {
+		report, done := fork.partialVdrKill()
+		if !done {
 			allDone = false
-		} else if report != nil {
+		}
+		// A fork which is not completely done (e.g. some of its files
+		// are still kept alive by top-level outputs) may still have
+		// removed files, which must be accounted for.
+		if report != nil {
 			killReports = append(killReports, report)
 		}
 	}
